@@ -2,6 +2,7 @@ package props
 
 import (
 	"fmt"
+	"github.com/taurusgroup/multi-party-sig/pkg/party"
 
 	"github.com/taurusgroup/multi-party-sig/verif/fw"
 	"github.com/taurusgroup/multi-party-sig/verif/mut"
@@ -47,9 +48,30 @@ func runC03(c *fw.Ctx) {
 	if len(b.Targets) == 0 {
 		return
 	}
+	// selective tampering: the altered version of a broadcast reaches only some of the honest parties,
+	// the others get the genuine one. In a protected round this is C06's equivocation (and must end in
+	// aborts); in a FINAL round nothing is echoed any more and only the round's own checks (openings
+	// of earlier commitments, proofs) stand between the tamperer and diverging results.
+	selective := ""
+	if len(b.Honest) >= 2 && c.S.Draw(3, "selective") == 2 {
+		b.Equivocate = map[party.ID]bool{}
+		for len(b.Equivocate) == 0 || len(b.Equivocate) == len(b.Honest) {
+			b.Equivocate = map[party.ID]bool{}
+			for _, id := range b.Honest {
+				if c.S.Draw(2, "gets-altered") == 1 {
+					b.Equivocate[id] = true
+				}
+			}
+			if c.S.Replay && (len(b.Equivocate) == 0 || len(b.Equivocate) == len(b.Honest)) {
+				b.Equivocate = map[party.ID]bool{b.Honest[0]: true}
+			}
+		}
+		selective = fmt.Sprintf(" selective=%d/%d", len(b.Equivocate), len(b.Honest))
+		c.Fault("selective_tampering", 1)
+	}
 	b.Start()
 	b.Run()
-	c.Res.Desc = fmt.Sprintf("%s cheater=%q target=%s liar=%v alteration=%v policy=%s", b.Sc.Name, b.Cheater, b.TargetKey, b.Liar, b.Applied, b.Sess.Net.Policy.Name())
+	c.Res.Desc = fmt.Sprintf("%s cheater=%q target=%s liar=%v%s alteration=%v policy=%s", b.Sc.Name, b.Cheater, b.TargetKey, b.Liar, selective, b.Applied, b.Sess.Net.Policy.Name())
 	if b.Applied == nil {
 		return
 	}
